@@ -13,6 +13,7 @@ import (
 
 	hessian "github.com/vogo/gohessian"
 	"verifharness/proj"
+	"verifharness/zoo"
 )
 
 type silent struct{}
@@ -121,6 +122,8 @@ func RoundTrip(v interface{}) proj.M {
 }
 
 var rtCount int
+var sharedEnc = hessian.NewEncoder(nil, nil)
+var sharedDec = hessian.NewDecoder(nil, nil)
 
 // RoundTripWith is RoundTrip with caller-supplied maps.  The decode entry point rotates:
 // ToObject, a Decoder over a reader that delivers a few octets per Read, a Serializer.
@@ -130,7 +133,28 @@ func RoundTripWith(v interface{}, typMap map[string]reflect.Type, nameMap map[st
 	ev["v"] = P.Project(v).JSON()
 	var out []byte
 	var err error
-	msg, p := Call(func() { out, err = hessian.ToBytes(v, nameMap) })
+	rtCount++
+	evia := "ToBytes"
+	msg, p := Call(func() {
+		if rtCount%3 == 2 {
+			// one long-lived encoder for the whole run: the maps are registered per value, and a
+			// primer message (nothing / only an empty list / a string / a struct) goes first
+			evia = "reused Encoder.Encode"
+			sharedEnc.RegisterNameMap(nameMap)
+			switch (rtCount / 3) % 4 {
+			case 1:
+				sharedEnc.Encode([]string{})
+			case 2:
+				sharedEnc.Encode("primer")
+			case 3:
+				sharedEnc.Encode(zoo.HI32{V: 7})
+			}
+			out, err = sharedEnc.Encode(v)
+			return
+		}
+		out, err = hessian.ToBytes(v, nameMap)
+	})
+	ev["evia"] = evia
 	ev["epanic"] = b2i(p)
 	ev["eerr"] = b2i(err != nil)
 	ev["emsg"] = errStr(err) + ascii(msg)
@@ -142,10 +166,13 @@ func RoundTripWith(v interface{}, typMap map[string]reflect.Type, nameMap map[st
 	}
 	ev["dskip"] = 0
 	var r interface{}
-	rtCount++
 	via := "ToObject"
 	msg, p = Call(func() {
-		switch rtCount % 4 {
+		switch rtCount % 5 {
+		case 2: // one long-lived decoder for the whole run
+			via = "reused Decoder.Decode"
+			sharedDec.RegisterTypeMap(typMap)
+			r, err = sharedDec.Decode(out)
 		case 1: // a source that delivers one to three octets at a time
 			via = "Decoder.ReadFrom(choppy)"
 			r, err = hessian.NewDecoder(nil, typMap).ReadFrom(&ChoppyReader{B: out, Max: 1 + rtCount%3})
